@@ -1,15 +1,19 @@
 (* String literals and association lists for the doctree model (group Doc; owned by C02/C03). *)
-From Coq Require Import List NArith Bool String Ascii.
+From Coq Require Import List NArith Bool.
+From Coq Require String Ascii.
+Export String.StringSyntax.
 From MV Require Import Base.PyStr.
 Import ListNotations.
 Open Scope N_scope.
 
 (* Coq string literal -> list of code points *)
-Fixpoint lit (x : string) : str :=
+Fixpoint lit (x : String.string) : str :=
   match x with
-  | EmptyString => []
-  | String a r => N_of_ascii a :: lit r
+  | String.EmptyString => []
+  | String.String a r => Ascii.N_of_ascii a :: lit r
   end.
+
+Arguments lit x%string_scope.
 
 (* ---- Python dict with str keys as ordered association list ---- *)
 Fixpoint assoc {V : Type} (k : str) (l : list (str * V)) : option V :=
@@ -64,7 +68,7 @@ Fixpoint drop (n : nat) (s : str) : str :=
 
 Definition is_empty (s : str) : bool := match s with [] => true | _ => false end.
 
-(* markdown_it.common.utils.escapeHtml: & < > " *)
+(* markdown_it.common.utils.escapeHtml: ampersand, less-than, greater-than, double quote *)
 Fixpoint escape_html (s : str) : str :=
   match s with
   | [] => []
@@ -76,7 +80,7 @@ Fixpoint escape_html (s : str) : str :=
        else [c]) ++ escape_html r
   end.
 
-(* REGEX_SCHEME = ^([a-zA-Z][a-zA-Z0-9+.-]*): *)
+(* REGEX_SCHEME: a letter, then letters / digits / plus / period / hyphen, then a colon; group 1 is the scheme *)
 Definition is_alpha (c : N) : bool := ((65 <=? c) && (c <=? 90)) || ((97 <=? c) && (c <=? 122)).
 Definition is_scheme_char (c : N) : bool :=
   is_alpha c || ((48 <=? c) && (c <=? 57)) || (c =? 43) || (c =? 46) || (c =? 45).
